@@ -17,7 +17,8 @@ PROFILE = {"weights": {"set_attr": 10, "set_link": 5, "set_auto": 1.5, "force": 
                        "delete": 1, "reopen": 0.8, "lookup": 2, "bad": 0.5, "probe": 0, "probe_link": 0}}
 RULE = ("histories with the library clock replaced by a counter (nixio.util.now_int patched: op i runs at second 900 + (37 (1000+i) mod 211): the clock jumps back every few operations), the "
         "auto-update switch toggled at random points and kept across reopen, every modelled setter on every entity kind, "
-        "force_created_at/force_updated_at with boundary and random seconds in [0, 2100); created_at/updated_at of EVERY entity "
+        "force_created_at/force_updated_at with boundary and random seconds in [0, 2100) on every kind and on the File itself; "
+        "created_at/updated_at of EVERY entity and of the file "
         "are part of the walk compared with the model after every operation, and the trace predicates below are applied to the "
         "implementation's own timestamps; plus the calendar stream: time_to_str/str_to_time on day boundaries, leap days and "
         "random seconds under two TZ settings.")
@@ -39,6 +40,8 @@ def predicate(h):
         if op[0] == "force" and res[0] == "ok":
             forced = (h["handle_ids"][i] if "handle_ids" in h else None, op[2], op[3])
         target = h["target_ids"][i] if "target_ids" in h else None
+        if op[0] == "force" and op[1] == 0:
+            target = "file"             # handle 0 is the File; its timestamps are recorded under this key
         for eid, (c1, u1) in cur.items():
             if eid not in prev:
                 continue
